@@ -12,34 +12,34 @@ CHECKS = {
          "Every archive produced from the C01 generator is parsed by a reader written from the specification (header, section bounds/disjointness, 16 KiB root budget, canonical directories, ordering, counters recomputed, clustered flag vs layout, binary-search lookup of every model id and of non-members). A sample is parsed again by an unrelated Python reader. Sampling search.",
          "Trusted: harness/src/spec/reader.rs and tools/pmtiles_ref.py as readings of the specification; flate2/brotli/zstd as decompressors.", "DESIGN.md §4 C02"),
  "C03": ("exploration", "proptest layouts through an independent spec-level writer; expected mapping from the layout description; fixtures",
-         "Foreign archives (24 section orders, gaps, directory depth 1-3, shuffled/padded leaves, runs, shared/non-monotonic/undeduplicated offsets, non-eliding spelling, directories mixing tile entries and leaf pointers, the last tile id of the domain, counters left at 0, empty metadata, 4 codecs with foreign parameters) are opened through from_bytes / from_reader / from_async_reader and compared with what the layout addresses; util::read_directories (sync+async) and Directory::find_entry_for_tile_id are compared with reference answers; the three Go-writer fixtures are compared with the independent reader. Sampling search with class floors.",
+         "Foreign archives (24 section orders, gaps, directory depth 1-3, shuffled/padded leaves, runs, shared/non-monotonic/undeduplicated offsets, non-eliding spelling, directories mixing tile entries and leaf pointers, the last tile id of the domain, counters left at 0, empty metadata, 4 codecs with foreign parameters) are opened through from_bytes / from_reader / from_async_reader and compared with what the layout addresses; util::read_directories (sync+async) and Directory::find_entry_for_tile_id are compared with reference answers; the three Go-writer fixtures and hand-assembled archives whose first leaf is steered onto decoder-buffer boundaries are compared with the independent reader. Sampling search with class floors.",
          "Trusted: harness/src/spec/{writer,reader}.rs, cross-checked against each other on every case.", "DESIGN.md §4 C03"),
  "C04": ("exploration", "bounded-exhaustive operation sequences + proptest histories against a map model (model-based testing)",
          "All sequences of 5 (quick) / 6 (thorough) operations over a 14-symbol alphabet of adjacent ids, colliding contents, removes and sync/async reopen, from an empty and from a foreign archive, with a full comparison against the model after every step; plus random histories up to 300 ops over larger alphabets and initial states. Exhaustive within the small scope, sampled beyond.",
          "Trusted: BTreeMap model and interpreter (harness/src/model/history.rs). The hash-collision finding has its own probe.", "DESIGN.md §4 C04"),
  "C05": ("exploration", "bounded-exhaustive enumeration + proptest vs independent encoder/decoder (differential, round trip)",
-         "Every valid list of <=2 entries over boundary value sets (<=3 over reduced/full sets) and seeded random lists up to 10^4/10^5 entries are serialised by the library and compared byte-for-byte with an independent spec-level encoder, parsed from the independent encoder's output (canonical and non-eliding spellings) and round-tripped in all sync/async pairings under all four codecs; every third list follows a refused serialise / parse on the same thread. Search, not proof: covers the boundary lattice completely and the rest by sampling.",
+         "Every valid list of <=2 entries over boundary value sets (<=3 over reduced/full sets) and seeded random lists up to 10^4/10^5 entries are serialised by the library and compared byte-for-byte with an independent spec-level encoder, parsed from the independent encoder's output (canonical and non-eliding spellings) and round-tripped in all sync/async pairings under all four codecs; every third list follows a refused serialise / parse on the same thread; fixed uncompressed lists whose bytes start with a gzip / zstd magic. Search, not proof: covers the boundary lattice completely and the rest by sampling.",
          "Trusted: harness/src/spec/{varint,directory}.rs (written from the specification), flate2/brotli/zstd as decompressors.", "DESIGN.md §4 C05"),
  "C07": ("exploration", "bounded-exhaustive enumeration (all ids of zooms 0..12 / 0..16) + proptest vs independent Hilbert implementation",
          "Both conversions are compared with an independent rotate-and-flip implementation for every tile id of zooms 0-12 (quick) / 0-16 (thorough) together with block contiguity, edge adjacency and the aligned child block; boundary, bit-pattern and uniform points at every zoom 0-31 (each asked again at other zooms back to back), ids beyond the domain, and generated out-of-grid coordinate lookups against archives holding every tile the coordinates could alias to. Exhaustive below the zoom bound, sampled above it.",
          "Trusted: harness/src/spec/hilbert.rs (the specification's algorithm).", "DESIGN.md §4 C07"),
  "C10": ("exploration", "proptest duplication patterns and histories; independent greedy RLE + sum-of-distinct oracle; hook-observed retention invariant after every step",
-         "Engineered duplication patterns on top of empty and undeduplicated foreign archives are written and parsed by the independent reader: tile-data length = sum of distinct content lengths, equal content <=> equal (offset,length), entry list = greedy run-length encoding of the model (hence not mergeable further); runs beyond 2^16 ids and archives with more than 2^16 distinct contents are part of every tier. Edit histories check after every step that the builder holds exactly one copy per live in-memory content (verif hook). Sampling search with class floors.",
+         "Engineered duplication patterns on top of empty and undeduplicated foreign archives are written and parsed by the independent reader: tile-data length = sum of distinct content lengths, equal content <=> equal (offset,length), entry list = greedy run-length encoding of the model (hence not mergeable further); runs beyond 2^16 ids, archives with more than 2^16 distinct contents and archives that change threads between adds and the write are part of every tier. Edit histories check after every step that the builder holds exactly one copy per live in-memory content (verif hook). Sampling search with class floors.",
          "Trusted: independent RLE in props/c10.rs, spec reader; hook is a read-only accessor.", "DESIGN.md §4 C10"),
  "C11": ("exploration", "proptest archives x steered ranges; metamorphic oracle: full open filtered by an independent contains()",
          "Foreign and library-written archives (root-only, with leaves, depth <= 3) are opened partially through all five range-taking APIs with ranges over all nine bound-kind combinations, endpoints steered onto, next to, a few ids beyond and half-way between 0, leaf first ids, run boundaries and u64::MAX, incl. pin-point ranges of 1-7 ids; the result must equal the full opening restricted to the range, with identical bytes, and never fail or panic when the full open succeeds. Sampling search; every case carries all nine bound kinds.",
          "Trusted: independent contains() and the full open as reference (itself checked by C03).", "DESIGN.md §4 C11"),
  "C16": ("exploration", "proptest pairs of histories to the same state, repeated writes, rewrite, separate OS processes; byte-equality oracle",
-         "For generated logical archives a second history (other permutation, detours, save+reopen in between) must serialise to the same bytes as the straight one, for all four codecs and both writers; the same history twice, a rewrite of a just-read archive, a foreign archive opened and saved against the same content built in memory, large archives with leaf spill, and two freshly spawned processes must agree too. Sampling search.",
+         "For generated logical archives a second history (other permutation, detours, save+reopen in between) must serialise to the same bytes as the straight one, for all four codecs and both writers; the same history twice, a rewrite of a just-read archive, a foreign archive opened and saved against the same content built in memory, unrelated library work between the two histories, large archives with leaf spill, and two freshly spawned processes must agree too. Sampling search.",
          "Trusted: byte comparison only.", "DESIGN.md §4 C16"),
  "C19": ("exploration", "proptest placement of the offending element (history position, entry index, JSON kind, codec, API); Err-and-unchanged oracle with controls",
-         "Empty-content adds at generated points of histories on in-memory and reader-backed archives (must be Err; archive then equals the model and writes the same bytes as without them); a zero-length entry at any index of directories up to 10^3 entries x 4 codecs x sync/async serialiser and parser; every non-object JSON kind (incl. long multi-byte strings) as metadata x open API x full / empty / tiny filter ranges; unknown internal compression on open (same APIs and ranges) and on every writer. Sampling search with positive controls so a reject-everything implementation fails.",
+         "Empty-content adds at generated points of histories on in-memory and reader-backed archives (must be Err; archive then equals the model and writes the same bytes as without them); a zero-length entry (also spelled as an over-long varint or as a multiple of 2^32) at any index of directories up to 10^3 entries x 4 codecs x sync/async serialiser and parser; every non-object JSON kind (incl. long multi-byte strings) as metadata x open API x full / empty / tiny filter ranges; unknown internal compression on open (same APIs and ranges) and on every writer. Sampling search with positive controls so a reject-everything implementation fails.",
          "Trusted: independent encoder for the parser-side bytes; spec writer for crafted archives.", "DESIGN.md §4 C19"),
 }
 
 CHECKS.update({
  "C06": ("exploration", "proptest with size-steered generators (uncompressed: exact byte length by varint widths; codecs: bisection with the library encoder as measuring device) + structural spill oracle",
-         "Entry lists steered onto 16255..16259 and 16382..16386 bytes of single-root encoding and far on both sides, lists up to 10^5 entries, 4 codecs, initial leaf sizes {default,1,2,7,4096,>list}, sync/async, non-zero stream position, plus whole-archive writes around the threshold: root <= 16257, spill only when necessary, pointers carry first id / offset / exact length, leaves disjoint and decodable with nothing left over, concatenation = original entries, util::read_directories resolves to the reference expansion. Sampling search with exact hits on the budget edge counted as classes.",
+         "Entry lists steered onto 16255..16259 and 16382..16386 bytes of single-root encoding and far on both sides, lists up to 10^5 entries, 4 codecs, initial leaf sizes {default,1,2,7,4096,>list,2^31,usize::MAX-1,usize::MAX}, short lists of 25-30-byte entries, sync/async, non-zero stream position, plus whole-archive writes around the threshold: root <= 16257, spill only when necessary, pointers carry first id / offset / exact length, leaves disjoint and decodable with nothing left over, concatenation = original entries, util::read_directories resolves to the reference expansion. Sampling search with exact hits on the budget edge counted as classes.",
          "Trusted: independent directory decoder and upstream decompressors; 'necessary' is judged with the library's own single-directory encoder (for none also the independent encoder's length).", "DESIGN.md §4 C06"),
  "C09": ("exploration", "enumeration of stored coordinate values (all 2^32 thorough / every 257th quick) + exhaustive byte codes and truncations + proptest fields and degrees vs independent header codec",
          "Parse->serialise must reproduce the 127 bytes for every stored coordinate value in all six slots (exhaustive in the thorough tier); degrees are stored as the nearest multiple of 1e-7 by an exact rational oracle; the eleven u64 fields at boundary and random values in all sync/async reader/writer pairings; every byte value at the magic, version, clustered and enum positions; every truncation length and longer inputs (reader stops at 127); sequences of header writes on one thread with failing / full sinks and unserialisable versions in between (each write into a healthy sink emits exactly the 127 bytes).",
@@ -51,10 +51,10 @@ CHECKS.update({
          "All compositions of small directories (n <= 16), all 2-/3-part header splits, all 5^6 cap sequences and all 2^12 Pending patterns on small archives in all codecs, fixed caps 1..k and random schedules on generated archives: readers must return the same values and writers the same stream image and position as on an unfragmented stream. Exhaustive over the small scopes, sampled on full archives.",
          "Trusted: stream model harness/src/sio (short transfers >= 1 byte, waker woken before Pending, <= 3 consecutive Pending).", "DESIGN.md §4 C13"),
  "C14": ("exploration", "proptest byte strings x codec x chunk schedules; round-trip identity + differential against upstream crates and Python zlib",
-         "compress_all / streaming compress / compress_async paired with decompress_all / streaming decompress / decompress_async under generated write- and read-size schedules, over in-memory streams and over underlying streams that themselves transfer only a few bytes per call, must be the identity for none/gzip/brotli/zstd on inputs from 0 bytes to 8 MiB; outputs must be standard streams for flate2/brotli/zstd (fully consumed) and, for gzip, Python's zlib; Unknown must be Err from all six entry points.",
+         "compress_all / streaming compress / compress_async paired with decompress_all / streaming decompress / decompress_async under generated write- and read-size schedules, over in-memory streams and over underlying streams that themselves transfer only a few bytes per call and answer 'not ready' now and then, with flushes between writes and zero-length reads, must be the identity for none/gzip/brotli/zstd on inputs from 0 bytes to 8 MiB; outputs must be standard streams for flate2/brotli/zstd (fully consumed) and, for gzip, Python's zlib; Unknown must be Err from all six entry points.",
          "Trusted: upstream codec crates as decoders; Python zlib for gzip.", "DESIGN.md §4 C14"),
  "C15": ("fault_enumeration", "exhaustive fail-stop fault index enumeration over recorded operation logs, inputs sampled with proptest strategies",
-         "For 13 scenarios x 4 compressions x sync/async x sampled archives the fault-free run is recorded and every k < N is executed with operations k.. failing; the call must return Err (never Ok, never panic), with the single carve-out of zero-byte EOF probes. Exhaustive in k for every sampled instance (instances above an operation cap only in the thorough tier). Two further passes: a fixed-size sink of every capacity below the needed size, and generated archives whose source stream ends inside a generated tile (lookups of incomplete tiles and re-writing must be Err, complete tiles exact).",
+         "For 13 scenarios x 4 compressions x sync/async x sampled archives the fault-free run is recorded and every k < N is executed with operations k.. failing; the call must return Err (never Ok, never panic), with the single carve-out of zero-byte EOF probes. Exhaustive in k for every sampled instance (instances above an operation cap only in the thorough tier). Two further passes: a fixed-size sink of every capacity below the needed size, and generated archives whose source stream ends inside a generated tile (lookups of incomplete tiles and re-writing must be Err, complete tiles exact) or exactly at the start of a directory (opening must be Err).",
          "Trusted: fail-stop fault model on the in-memory stream. One open known finding (Directory::to_writer sync + codec after flush).", "DESIGN.md §4 C15"),
  "C17": ("fault_enumeration", "exhaustive crash-point enumeration over the recorded write log, inputs sampled with proptest strategies",
          "For sampled archives (with/without spill, 4 codecs, sync/async) (built in memory or re-saved from an opened archive; some with a zero-tailed last tile) every prefix k in [0,N] of the recorded seek/write/flush/close operations is replayed into a fresh zero-filling stream; the image must be rejected by from_bytes unless it equals the complete archive. Exhaustive in k per instance.",
